@@ -1071,6 +1071,40 @@ pub fn exec_map<const N: usize>(cage: &mut Cage<Map<Key, Val, N>>, op: &Value, c
             r["emitted"] = json!(emitted);
             r
         }
+        "de_items" => {
+            // a hand-made stream (repeated keys, too many keys) decoded into a fresh container of capacity N
+            let fmt = s(op, "fmt");
+            let data = stream_of(op, fmt, true);
+            let first_new = ledger::with(|l| l.next);
+            let r = std::panic::catch_unwind(std::panic::AssertUnwindSafe(|| -> Option<Map<Key, Val, N>> {
+                if fmt == "json" {
+                    serde_json::from_slice(&data).ok()
+                } else {
+                    bincode::serde::decode_from_slice(&data, bincode::config::legacy()).ok().map(|x| x.0)
+                }
+            }));
+            // objects made and destroyed by the decoding itself are not the model's business (the ledger
+            // still sees a double destruction, and the placement check an object that is lost)
+            ledger::with(|l| l.drops.retain(|(_, sr)| *sr < first_new));
+            match r {
+                Ok(Some(d)) => {
+                    c05_other_map(ctx, &d, "decoded from a hand-made stream");
+                    for (k, v) in d.iter() {
+                        if d.get(k).map(|x| std::ptr::eq(x, v)) != Some(true) {
+                            ctx.note("C05", format!("decoded container: lookup of the stored key K#{} does not return the value stored with it", k.serial));
+                        }
+                    }
+                    let ents: Vec<Value> = d.iter().map(|(k, v)| json!([0, k.class(), k.ver, 0, v.content])).collect();
+                    for (k, v) in d.iter() {
+                        ctx.stash_serials.push(k.serial);
+                        ctx.stash_serials.push(v.serial);
+                    }
+                    ctx.stash.push(Box::new(d));
+                    json!({"de": ents, "ok": true})
+                }
+                _ => json!({"de": [], "ok": false}),
+            }
+        }
         other => panic!("exec_map: unknown op {other}"),
     }
 }
@@ -2146,6 +2180,31 @@ pub fn exec_set<const N: usize>(cage: &mut Cage<Set<Key, N>>, op: &Value, ctx: &
             let ents: Vec<Value> = seq.iter().map(|k| ctx.je_set(k)).collect();
             json!(["ents", ents])
         }
+        "de_items" => {
+            let fmt = s(op, "fmt");
+            let data = stream_of(op, fmt, false);
+            let first_new = ledger::with(|l| l.next);
+            let r = std::panic::catch_unwind(std::panic::AssertUnwindSafe(|| -> Option<Set<Key, N>> {
+                if fmt == "json" {
+                    serde_json::from_slice(&data).ok()
+                } else {
+                    bincode::serde::decode_from_slice(&data, bincode::config::legacy()).ok().map(|x| x.0)
+                }
+            }));
+            ledger::with(|l| l.drops.retain(|(_, sr)| *sr < first_new));
+            match r {
+                Ok(Some(d)) => {
+                    c05_other_set(ctx, &d, "decoded from a hand-made stream");
+                    let ents: Vec<Value> = d.iter().map(|k| json!([0, k.class(), k.ver, 0, 0])).collect();
+                    for k in d.iter() {
+                        ctx.stash_serials.push(k.serial);
+                    }
+                    ctx.stash.push(Box::new(d));
+                    json!({"de": ents, "ok": true})
+                }
+                _ => json!({"de": [], "ok": false}),
+            }
+        }
         other => panic!("exec_set: unknown op {other}"),
     }
 }
@@ -2206,6 +2265,31 @@ fn bind_clones(ctx: &mut Ctx, stored: Vec<u32>) {
         if !seen.contains(&sr) {
             ctx.note("C15", format!("stored object #{sr} was not cloned by clone()"));
         }
+    }
+}
+
+/// The bytes of a hand-made stream holding the op's items in order: a JSON object / array, or bincode's
+/// legacy encoding (8-byte count, keys as 8-byte length + "class.ver", map values as one byte).
+fn stream_of(op: &Value, fmt: &str, is_map: bool) -> Vec<u8> {
+    let items = op["stream"].as_array().unwrap();
+    let key = |it: &Value| format!("{}.{}", it["k"]["c"].as_u64().unwrap(), it["k"]["r"].as_u64().unwrap());
+    let val = |it: &Value| it["v"]["v"].as_u64().unwrap_or(0) as u8;
+    if fmt == "json" {
+        let body: Vec<String> =
+            items.iter().map(|it| if is_map { format!("\"{}\":{}", key(it), val(it)) } else { format!("\"{}\"", key(it)) }).collect();
+        let (a, b) = if is_map { ("{", "}") } else { ("[", "]") };
+        format!("{a}{}{b}", body.join(",")).into_bytes()
+    } else {
+        let mut b: Vec<u8> = (items.len() as u64).to_le_bytes().to_vec();
+        for it in items {
+            let k = key(it);
+            b.extend((k.len() as u64).to_le_bytes());
+            b.extend(k.as_bytes());
+            if is_map {
+                b.push(val(it));
+            }
+        }
+        b
     }
 }
 
